@@ -43,6 +43,9 @@ struct Names {
     globals: Vec<String>,
     has_config: bool,
     counter: usize,
+    /// an unterminated comment swallows text up to the next `*)`, so worlds that plant one
+    /// contain no other comment (otherwise declarations would not be independent text blocks)
+    no_comments: bool,
 }
 
 /// Re-spells an identifier with another letter case now and then (identifiers are case
@@ -55,7 +58,10 @@ fn respell(rng: &mut Rng, name: &str) -> String {
     }
 }
 
-fn trivia(rng: &mut Rng) -> &'static str {
+fn trivia(rng: &mut Rng, n: &Names) -> &'static str {
+    if n.no_comments {
+        return "";
+    }
     match rng.below(10) {
         0 => "(* note *)\n",
         1 => "  (* a\n multi-line\n comment *)\n",
@@ -207,7 +213,7 @@ fn pou_vars_and_body(rng: &mut Rng, n: &Names, is_function: bool, own: &str) -> 
     }
     let a = rng.pick(&locals).clone();
     let b = rng.pick(&locals).clone();
-    body.push_str(trivia(rng));
+    body.push_str(trivia(rng, n));
     match rng.below(3) {
         0 => body.push_str(&format!("  {a} := {b} + 1;\n")),
         1 => body.push_str(&format!(
@@ -336,6 +342,8 @@ pub const FAULT_KINDS: &[&str] = &[
     "dup_fb_program",
     "dup_case",
     "dup_identical",
+    "dup_one_faulty",
+    "alias_unknown",
 ];
 
 /// Fault kinds whose faulty declaration(s) fail on their own (no other declaration needed).
@@ -359,7 +367,7 @@ pub fn gen_valid(rng: &mut Rng, size: usize) -> World {
 
 /// Generates a world with exactly one planted fault of the given kind.
 pub fn gen_faulty(rng: &mut Rng, size: usize, kind: &str) -> World {
-    let mut n = Names::default();
+    let mut n = Names { no_comments: kind == "open_comment", ..Names::default() };
     let mut decls = vec![];
     let before = if size > 1 { rng.below(size) } else { 0 };
     for _ in 0..before {
@@ -490,6 +498,13 @@ pub fn gen_faulty(rng: &mut Rng, size: usize, kind: &str) -> World {
             push(&mut decls, d.clone());
             push(&mut decls, d);
         }
+        "dup_one_faulty" => {
+            // two same-named blocks, one of which uses an undeclared variable: if the analyzer
+            // keeps only one of them, the verdict follows whichever survives
+            push(&mut decls, decl("fault", &format!("Dup{k}"), format!("FUNCTION_BLOCK Dup{k}\n  VAR\n    cnt : INT;\n  END_VAR\n  cnt := nowhere{k} + 1;\nEND_FUNCTION_BLOCK\n")));
+            push(&mut decls, decl("fault", &format!("Dup{k}"), format!("FUNCTION_BLOCK Dup{k}\n  VAR\n    cnt : INT;\n  END_VAR\n  cnt := 1;\nEND_FUNCTION_BLOCK\n")));
+        }
+        "alias_unknown" => push(&mut decls, decl("fault", &format!("Al{k}"), format!("TYPE\n  Al{k} : NoSuchType{k};\nEND_TYPE\n"))),
         other => panic!("unknown fault kind {other}"),
     }
     while decls.len() < size {
